@@ -43,6 +43,8 @@ pub enum HTOp {
     /// `n` fresh in-memory-only fillers: evicts everything else from memory.
     Fill { n: usize },
     Contains { k: u64 },
+    /// close() from a client thread (the final restart closes again: close is idempotent).
+    Close,
 }
 
 #[derive(Debug, Clone, Serialize, Deserialize)]
@@ -52,6 +54,15 @@ pub struct HTJob {
     pub prologue: Vec<HOp>,
     pub threads: Vec<Vec<HTOp>>,
     pub bound: usize,
+    /// Number of runtime-worker threads (tasks run in parallel with each other when > 1).
+    #[serde(default)]
+    pub rt_workers: usize,
+    /// Cost model of the exploration: false = preemption bounding (switches at blocking points are free, as in
+    /// Engine T); true = deviation (delay) bounding: at every scheduling point the default is "stay, or else the
+    /// lowest enabled thread" and any other choice costs one deviation, also at blocking points — needed with
+    /// several runtime workers, which park and are woken all the time.
+    #[serde(default)]
+    pub flat_cost: bool,
 }
 
 struct ThreadWaker {
@@ -144,6 +155,15 @@ fn run_ops(env: &Arc<Env>, thread: usize, ops: &[HTOp]) {
                     let k = env.filler_next.fetch_add(1, Ordering::SeqCst);
                     let e = env.cache.insert_with_properties(k, HVal(mkval(k, 1, 24, false)), World::props(Loc::InMem));
                     drop(e);
+                }
+            }
+            HTOp::Close => {
+                let (r, _) = block_on_parked(env.cache.close());
+                let done = env.tick();
+                let mut h = env.hist.lock().unwrap();
+                h.calls.push((idx, "close", t, Some(done)));
+                if let Err(e) = r {
+                    h.panics.push(format!("close() failed: {e}"));
                 }
             }
             HTOp::Contains { k } => {
@@ -246,7 +266,7 @@ fn keys_of(job: &HTJob) -> Vec<u64> {
         .flatten()
         .filter_map(|o| match o {
             HTOp::Ins { k, .. } | HTOp::Rm { k } | HTOp::Get { k } | HTOp::Gof { k, .. } | HTOp::Contains { k } => Some(*k),
-            HTOp::Fill { .. } => None,
+            HTOp::Fill { .. } | HTOp::Close => None,
         })
         .chain(job.prologue.iter().filter_map(|o| match o {
             HOp::Ins { k, .. } | HOp::Rm { k } | HOp::Get { k } | HOp::Gof { k, .. } => Some(*k),
@@ -264,10 +284,11 @@ pub fn execute(job: &HTJob, ctx: Arc<Mutex<Ctx>>, on_deadlock: sched::DeadlockHa
     let _ = crate::hyb::admissions_take();
     crate::hyb::NOW.store(0, Ordering::SeqCst);
     let ctx2 = ctx.clone();
+    let flat = job.flat_cost;
     sched::begin(sched::Config {
         chooser: Box::new(move |p: &sched::Point| {
             let mut c = ctx2.lock().unwrap();
-            let i = c.choose(p.enabled.len(), !p.current_enabled);
+            let i = c.choose(p.enabled.len(), !p.current_enabled && !flat);
             c.label(|| format!("{:?}: run t{} of {:?}", p.why, p.enabled[i], p.enabled));
             i
         }),
@@ -299,14 +320,24 @@ pub fn execute(job: &HTJob, ctx: Arc<Mutex<Ctx>>, on_deadlock: sched::DeadlockHa
         let stop = Arc::new(AtomicBool::new(false));
         let io = world.io.clone();
         io.set_auto(false);
-        let rt = {
+        let workers = job.rt_workers.max(1);
+        let rt_tids: Arc<Mutex<Vec<usize>>> = Arc::new(Mutex::new(vec![]));
+        let mut rts = vec![];
+        for wi in 0..workers {
             let stop = stop.clone();
             let io = io.clone();
             let rt_steps = rt_steps.clone();
             let clock = world.clock.clone();
-            sched::spawn("rt", move || {
+            let rt_tids = rt_tids.clone();
+            rts.push(sched::spawn(&format!("rt{wi}"), move || {
                 let me = sched::current_tid().expect("rt tid");
-                let hook: Arc<dyn Fn() + Send + Sync> = Arc::new(move || sched::unpark(me));
+                rt_tids.lock().unwrap().push(me);
+                let tids = rt_tids.clone();
+                let hook: Arc<dyn Fn() + Send + Sync> = Arc::new(move || {
+                    for t in tids.lock().unwrap().iter() {
+                        sched::unpark(*t);
+                    }
+                });
                 sim::set_wake_hook(Some(hook.clone()));
                 io.set_submit_hook(Some(hook));
                 loop {
@@ -332,11 +363,8 @@ pub fn execute(job: &HTJob, ctx: Arc<Mutex<Ctx>>, on_deadlock: sched::DeadlockHa
                     }
                     sched::step_point("rt-step");
                 }
-                sim::set_wake_hook(None);
-                io.set_submit_hook(None);
-            })
-        };
-        let rt_tid = rt.tid();
+            }));
+        }
         let mut handles = vec![];
         for (ti, ops) in job.threads.iter().enumerate() {
             let env = env.clone();
@@ -349,10 +377,14 @@ pub fn execute(job: &HTJob, ctx: Arc<Mutex<Ctx>>, on_deadlock: sched::DeadlockHa
             }
         }
         stop.store(true, Ordering::SeqCst);
-        sched::unpark(rt_tid);
-        if let Err(p) = sched::join(rt) {
-            complaints.push(("X.panic".into(), format!("the runtime thread panicked: {}", sim::panic_message(&p))));
+        for rt in rts {
+            sched::unpark(rt.tid());
+            if let Err(p) = sched::join(rt) {
+                complaints.push(("X.panic".into(), format!("a runtime thread panicked: {}", sim::panic_message(&p))));
+            }
         }
+        sim::set_wake_hook(None);
+        io.set_submit_hook(None);
         drop(env);
         // Everything below runs on the main thread alone (no choices): quiesce, then read the key from
         // memory, from disk (after evicting memory) and after a graceful restart.
@@ -386,6 +418,32 @@ pub fn execute(job: &HTJob, ctx: Arc<Mutex<Ctx>>, on_deadlock: sched::DeadlockHa
         }
         for l in h.lock_held.iter() {
             complaints.push((format!("K.lock-held:{l}"), format!("user callback {l} ran while the calling thread held a cache lock")));
+        }
+        // C15 at thread granularity: what was inserted (call returned) before a client thread called close() and
+        // was not written again is on disk after the restart (flush-on-close / write-on-insertion; the resident
+        // set is tiny). Inserts that overlap close() may or may not make it.
+        if let Some(close_at) = h.calls.iter().filter(|c| c.1 == "close" && c.0 != usize::MAX).map(|c| c.2).min() {
+            let mut latest: std::collections::BTreeMap<u64, &WriteEv> = Default::default();
+            for w in h.writes.iter().filter(|w| matches!(w.kind, WKind::Insert { .. })) {
+                latest.insert(w.key, w);
+            }
+            for (k, w) in latest {
+                let only = h.writes.iter().filter(|x| x.key == k).count() == 1;
+                if !(only && w.resp.map(|r| r < close_at).unwrap_or(false)) || job.cfg.unwritable(match w.kind {
+                    WKind::Insert { sz, .. } => sz,
+                    _ => 0,
+                }) {
+                    continue;
+                }
+                for l in h.lookups.iter().filter(|l| l.key == k && l.kind == "after-restart") {
+                    if !matches!(&l.res, LookupRes::Hit { ver, .. } if *ver == w.ver) {
+                        complaints.push((
+                            "D.lost-on-close".into(),
+                            format!("k{k} v{} was inserted (t{}..{:?}) before a client thread called close() at t{close_at}, but after reopen the lookup gives {:?}", w.ver, w.invoke, w.resp, l.res),
+                        ));
+                    }
+                }
+            }
         }
         let rs = oracle_r::check(&h, &job.cfg);
         // The divergence rule is the weaker statement: it speaks only where the register oracle is silent.
@@ -665,6 +723,8 @@ pub fn jobs_c01(tier: Tier) -> Vec<HTJob> {
             prologue: pro.clone(),
             threads: th,
             bound,
+            rt_workers: 1,
+            flat_cost: false,
         })
     };
     if tier == Tier::Quick {
@@ -760,6 +820,8 @@ pub fn jobs_c16(tier: Tier) -> Vec<HTJob> {
                 prologue: both_on_disk.clone(),
                 threads: th,
                 bound,
+                rt_workers: 1,
+                flat_cost: false,
             });
         }
     }
@@ -802,6 +864,8 @@ pub fn jobs_c17(tier: Tier) -> Vec<HTJob> {
                 prologue: k2_on_disk.clone(),
                 threads: th,
                 bound,
+                rt_workers: 1,
+                flat_cost: false,
             });
         }
     }
@@ -813,6 +877,116 @@ pub fn c17_th() -> THProp {
         id: "C17",
         owned: vec!["R.foreign", "R.garbage", "R.unknown", "X.panic"],
         jobs: jobs_c17,
+    }
+}
+
+/// C09 at thread granularity: a nearly full 4-block device, client threads that write (forcing a reclaim)
+/// and read entries of the block being reclaimed, and TWO runtime workers, so that the flusher, the reclaimer
+/// and the lookups' load tasks run in parallel with each other and with the callers.
+pub fn jobs_c09(tier: Tier) -> Vec<HTJob> {
+    let page_entry = 3000usize; // one page per entry: three entries fill a 16 KiB block
+    let ins = |k| HTOp::Ins { k, sz: page_entry };
+    let get = |k| HTOp::Get { k };
+    let rm = |k| HTOp::Rm { k };
+    let mut v = vec![];
+    for reinsert in [false, true] {
+        let mut cfg = HybCfg::small(true, true);
+        cfg.blocks = 4;
+        cfg.mem_capacity = 1;
+        cfg.flushers = 1;
+        cfg.reclaimers = 1;
+        cfg.clean_threshold = 1;
+        if reinsert {
+            cfg.reinsert = vec![1];
+        }
+        // blocks 0..2 full (keys 1..=9), block 3 holds two entries (keys 10, 11), everything flushed: the next
+        // one-page entry completes block 3, the flusher then needs a clean block and block 0 is reclaimed
+        let mut prologue: Vec<HOp> = (1..=11u64).map(|k| HOp::Ins { k, sz: page_entry, loc: Loc::Default }).collect();
+        prologue.push(HOp::Wait);
+        let mut progs = vec![
+            vec![vec![ins(12), ins(13)], vec![get(1)]],
+            vec![vec![ins(12), ins(13)], vec![rm(1)]],
+            vec![vec![ins(12), ins(13)], vec![get(2)], vec![get(3)]],
+        ];
+        if tier == Tier::Thorough {
+            progs.push(vec![vec![ins(12), ins(13)], vec![ins(1), get(1)]]);
+            progs.push(vec![vec![ins(12), ins(13), ins(14)], vec![get(1), get(4)]]);
+        }
+        for th in progs {
+            // deviation bound: 1 everywhere and 2 for the two-client programs without reinsertion (quick);
+            // 2 everywhere, then 3 as far as the wall cap allows (thorough)
+            let deep = th.len() == 2 && !reinsert;
+            let bounds: Vec<usize> = match tier {
+                Tier::Quick => {
+                    if deep {
+                        vec![2]
+                    } else {
+                        vec![1]
+                    }
+                }
+                Tier::Thorough => vec![2, 3],
+            };
+            for bound in bounds {
+            v.push(HTJob {
+                cfg: cfg.clone(),
+                prologue: prologue.clone(),
+                threads: th.clone(),
+                bound,
+                rt_workers: 2,
+                flat_cost: true,
+            });
+            }
+        }
+    }
+    v
+}
+
+pub fn c09_th() -> THProp {
+    THProp {
+        id: "C09",
+        owned: vec!["R.", "X.", "K."],
+        jobs: jobs_c09,
+    }
+}
+
+/// C15 at thread granularity: close() on one thread against inserts / lookups on others.
+pub fn jobs_c15(tier: Tier) -> Vec<HTJob> {
+    const K2: u64 = 2;
+    let ins = |k| HTOp::Ins { k, sz: SMALL };
+    let get = |k| HTOp::Get { k };
+    let one = vec![HOp::Ins { k: K1, sz: SMALL, loc: Loc::Default }];
+    let bound = if tier == Tier::Thorough { 2 } else { 1 };
+    let mut v = vec![];
+    for cfg in cfgs(tier) {
+        let mut progs = vec![
+            vec![vec![HTOp::Close], vec![ins(K2)]],
+            vec![vec![HTOp::Close], vec![get(K1)]],
+            vec![vec![HTOp::Close], vec![HTOp::Close]],
+        ];
+        if tier == Tier::Thorough {
+            progs.push(vec![vec![HTOp::Close], vec![ins(K2), get(K2)]]);
+            progs.push(vec![vec![HTOp::Close], vec![ins(K1)], vec![get(K1)]]);
+            progs.push(vec![vec![HTOp::Close, ins(K2)], vec![HTOp::Close]]);
+        }
+        for th in progs {
+            v.push(HTJob {
+                cfg: cfg.clone(),
+                prologue: one.clone(),
+                threads: th,
+                bound,
+                rt_workers: 1,
+                flat_cost: false,
+            });
+        }
+    }
+    v
+}
+
+pub fn c15_th() -> THProp {
+    THProp {
+        id: "C15",
+        owned: vec!["D.", "R.", "X.", "K."],
+        jobs: jobs_c15,
     }
 }
 
@@ -937,7 +1111,7 @@ impl Prop for THProp {
 
     fn wall_cap(&self, tier: Tier) -> Duration {
         match tier {
-            Tier::Quick => Duration::from_secs(50),
+            Tier::Quick => Duration::from_secs(150),
             Tier::Thorough => Duration::from_secs(1500),
         }
     }
